@@ -73,7 +73,7 @@ func (e *Exec) freshResult(c *ssa.CallCommon) Value {
 	if rt == nil {
 		return nil
 	}
-	return e.materialize(e.fresh("res", BoolSort).S, rt)
+	return e.materialize(e.freshName("res"), rt)
 }
 
 func namedOf(t types.Type) *types.Named {
@@ -647,7 +647,7 @@ func (e *Exec) copyOp(st *State, fr *Frame, args []Value, instr ssa.Instruction)
 	case VStr:
 		// copy(dst, string): contents opaque
 		if ok1 && d.Reg != nil {
-			e.havocRegion(st, d.Reg, e.fresh("cp", BoolSort).S)
+			e.havocRegion(st, d.Reg, e.freshName("cp"))
 		}
 		return VInt{T: e.fresh("copied", BV64), Signed: true}
 	}
@@ -696,7 +696,7 @@ func (e *Exec) appendOp(st *State, fr *Frame, args []Value, instr ssa.Instructio
 		}
 		// contents of the appended part are left arbitrary (sound over-approximation)
 		st2.Notes = append(st2.Notes, "append of a symbolic number of non-scalar elements: contents havocked")
-		e.havocRegion(st2, dst, e.fresh("appendhavoc", BoolSort).S)
+		e.havocRegion(st2, dst, e.freshName("appendhavoc"))
 	}
 	// Case A: fits in place (only possible if region exists)
 	// Case B: reallocation
